@@ -81,6 +81,7 @@ VISITORS = {"visitors.InitList": 1, "visitor_Call": 2, "visitors.Call": 3, "visi
             "visitors.ForNum": 5, "visitors.VarDecl": 6, "visitors.Assign": 7, "visitors.BinaryOp": 8}
 TDIV_RESULT = {}      # (ltype, rtype) -> result type of `///` on operands of different signedness, as the compiler's types.lua says
 MIXED_PAIRS = [("int8", "uint8"), ("uint8", "int8"), ("int16", "uint16"), ("int32", "uint32"), ("uint32", "int32"), ("int64", "uint64"), ("uint64", "int64"), ("int8", "uint64")]
+MIXED_WITNESSES = {("tdiv", "int32", "uint32", -(1 << 31), (1 << 32) - 1), ("tmod", "int32", "uint32", -(1 << 31), (1 << 32) - 1)}   # exact keys "case:<input>"
 TDIV_WITNESSES = {("tdiv", "int32", 7, 0), ("tmod", "int32", 7, 0), ("tdiv", "int64", -(1 << 63), -1), ("tmod", "int64", -(1 << 63), -1)}
 
 MSG = {1: "array index: position out of bounds", 3: "attempt to dereference a null pointer", 4: "division by zero"}
@@ -577,6 +578,8 @@ def gen_cases(ctx):
                         orc = "V %d" % (wrap(T, q) if op == "tdiv" else ca - q * cb)
                         if ca == tlo and cb == -1 and TYPES[T][0] >= 32:
                             key = "cbuiltins.operators.%s:plain-C-operator:%s-%s:min-by-minus-one-undefined" % (op, lt_, rt_)
+                    if (op, lt_, rt_, a, b) in MIXED_WITNESSES:
+                        key = None
                     cases.append(Case("tdiv-mixed", "%sm %s %s %d %d" % (op, lt_, rt_, a, b),
                                       "%sm %s %s %s %s %s" % (op, tb(lt_), tb(rt_), tb(T), hx(a), hx(b)), orc, key=key, nontrivial=a not in (0, 1)))
     # 6. pointer dereference
